@@ -96,7 +96,9 @@ func tables() []tbl {
 	out = append(out, mk("time", tw, sv, nil, "?v", []bqlm.Operand{Tm(1, 0), Tm(2, 3), Tm(3, -8)}, []bqlm.Operand{X("2016-01-01T00:00:00Z"), I(0)}))
 	// nodes and predicates: identity only
 	tn := tbl{name: "node", where: one("kn"), proj: sv}
-	tn.atoms = []*bqlm.Expr{cmp("?v", "=", N("/u", "a")), cmp("?v", "=", N("/t", "a")), cmp("?v", "=", N("/u", "zz")), cmp("?v", "=", X("/u<a>")), cmp("?v", "=", P("p1")), cmp("?s", "=", B("?s")), cmp("?v", "=", B("?s"))}
+	tn.atoms = []*bqlm.Expr{cmp("?v", "=", N("/u", "a")), cmp("?v", "=", N("/t", "a")), cmp("?v", "=", N("/u", "zz")), cmp("?v", "=", X("/u<a>")),
+		// another node whose type and id, written one after the other, read like the stored /u<a0> (and /u<a>)
+		cmp("?v", "=", N("/ua", "0")), cmp("?v", "=", P("p1")), cmp("?s", "=", B("?s")), cmp("?v", "=", B("?s"))}
 	out = append(out, tn)
 	tp := tbl{name: "predicate", where: one("kp"), proj: sv}
 	pOther := func(p *predicate.Predicate) bqlm.Operand {
